@@ -69,5 +69,16 @@ PROPS["C16"] = {
             "occurrence, replace of an absent substring is the identity); read_str_coding's agreement with the PEP 263 pattern is bounded only.",
     "undecided": ["codec round trip decode(encode(t)) == t", "separator lemma for str.replace chains (bounded only)"],
 }
+PROPS["C15"] = {
+    "sidecars": ["c15_scopes.py"],
+    "level": "proof",
+    "claim": "Proof level for two kernels: PyFunction.get_param_names returns exactly the parameters of every kind (positional-only, positional-or-keyword, "
+             "*args, keyword-only, **kwargs) in definition order for every ast.arguments record (comprehension loops with invariants), and "
+             "Scope.lookup / Scope._propagated_lookup compute the LEGB binding with enclosing class scopes skipped, for every scope chain (recursion verified "
+             "against its own contract, dynamic dispatch of get_propagated_names split over the classes).  Agreement of the name tables with the "
+             "interpreter's symbol table is an exhaustive bounded stand-in over one-construct modules.",
+    "note": "scope objects' name tables are abstract (names_of); the parent chain is finite (termination assumed); ast.arguments fields as declared records.",
+    "undecided": ["name tables built by the scope visitors for every module (bounded only)", "holding-scope computation from line numbers"],
+}
 _NB = "check not built yet (framework under construction; see DESIGN.md section 8)"
 NOT_APPLICABLE = {"C%02d" % i: _NB for i in range(1, 21)}
